@@ -7,7 +7,7 @@
   two steps; every `s.go()` of a timer is a step.  "Otherwise idle system": steps cost no time — the
   clock moves only through the environment move `tick`, allowed only while the daemon sleeps, never
   past its wake-up time, and only when no creator is in the middle of a creation.
-  Timers are `(deadline, id)`; weak references are not modelled (every Till stays referenced).
+  `Till(seconds=…)` and `Till(till=…)` (absolute, possibly already past).  Timers are `(deadline, id)`; weak references are not modelled (every Till stays referenced).
   The model is of the REPAIRED `__init__` (re-tests `enabled` under the locker; DESIGN §7 C14).
 -/
 import MoThreads.Model.Sched
@@ -42,6 +42,7 @@ inductive DPC   -- the daemon
 inductive CPC   -- a creating thread
   | idle
   | c0 (secs : Int) (g0 : Bool)             -- :43  if not enabled (g0: the global loaded is the first signal) / :52 seconds <= 0
+  | c0a (secs : Int) (g0 : Bool)            -- the same for `Till(till=<absolute time>)`: no `seconds <= 0` shortcut, a deadline in the past is registered
   | c1 (secs : Int)                         -- :66  now = time()
   | c2 (d : Int) (id : Nat)                 -- :80  with Till.locker (acquire)
   | c3 (d : Int) (id : Nat)                 -- :81 load the global `enabled`
@@ -118,6 +119,13 @@ def callTill (s : State) (t : Nat) (secs : Int) : Option State :=
   | .idle => some (s.setC t (.c0 secs (!s.disabled)))
   | _ => none
 
+/-- environment: a creator starts `Till(till=now + secs)` (an absolute deadline, possibly in the past) -/
+def callTillAbs (s : State) (t : Nat) (secs : Int) : Option State :=
+  if t = 0 then none else
+  match s.cpc t with
+  | .idle => some (s.setC t (.c0a secs (!s.disabled)))
+  | _ => none
+
 /-- environment: somebody asks the daemon to stop -/
 def requestStop (s : State) : State := { s with stopReq := true }
 
@@ -183,6 +191,9 @@ def stepC (s : State) (t : Nat) : Option (State × Label) :=
   | .c0 secs g0 =>
     let e := g0 && s.started
     some (s.setC t (if !e then .idle else if secs ≤ 0 then .idle else .c1 secs), .cEnabled e)
+  | .c0a secs g0 =>
+    let e := g0 && s.started
+    some (s.setC t (if !e then .idle else .c1 secs), .cEnabled e)
   | .c1 secs =>
     some ({ s with nextId := s.nextId + 1,
                    deadline := fun j => if j = s.nextId then s.now + secs else s.deadline j,
@@ -205,7 +216,7 @@ def step (s : State) (t : Nat) : Option (State × Label) :=
 
 def sys : Sys State Label where
   init s := ∃ I, 0 < I ∧ s = init I
-  env s s' := (∃ t secs, callTill s t secs = some s') ∨ s' = requestStop s ∨ (∃ d, tickOk s d ∧ s' = tick s d)
+  env s s' := (∃ t secs, callTill s t secs = some s') ∨ (∃ t secs, callTillAbs s t secs = some s') ∨ s' = requestStop s ∨ (∃ d, tickOk s d ∧ s' = tick s d)
   step := step
 
 end MoThreads.Till
